@@ -98,7 +98,12 @@ class C12(E1Prop):
             elif r < 0.2:
                 op['dst'] = rng.choice(['feature/base-%d', 'release/4.%d',
                                         'user/bob/base-%d', 'trunk-%d',
-                                        'development/x%d']) % gen.nsrc
+                                        'development/x%d',
+                                        # look-alikes of destination names
+                                        'stabilization/4.3.%d-rc1',
+                                        'stabilization/5.1.%d/backup',
+                                        'hotfix/4.3.%d-old',
+                                        'development/10.%d.x']) % gen.nsrc
                 op['create_dst'] = True
             else:
                 op['src'] = '%s/TEST-%d' % (rng.choice(
